@@ -270,6 +270,9 @@ func C04(ctx *core.Ctx, r *core.Report) {
 	c04DefaultSites(ctx, r)
 	c04RowProtocol(ctx, r)
 	c04MembersUntilExhausted(ctx, r)
+	c04ChooseThroughQualifiedLookup(ctx, r)
+	borrowFrom(ctx, r, "C10", C10, "lossy-convert")
+	borrowFrom(ctx, r, "C03", C03, "defaults-on-create")
 	c04FoundMemberIsReported(ctx, r)
 	// a read descends into a choice only through the chosen case, nested choices included (C09's rule on the same iterator)
 	{
